@@ -8,14 +8,14 @@ CONSTANTS
   CommitIds <- C_CommitIds
   Users <- C_Users
   Cfgs <- C_CfgsCrash
-  MaxCalls = 2
-  MaxFlush = 1
+  MaxCalls = 1
+  MaxFlush = 2
   MaxReopen = 0
   MaxCrash = 1
   MaxFaults = 0
   Concurrent = TRUE
   WithRejects = FALSE
-  ExportOneIn = 40
+  ExportOneIn = 10
   RecoveryCrashes = TRUE
   Batch = FALSE
 INVARIANTS NoViolation CacheCounterExact ChunksAbut DurableIsPrefix Export 
